@@ -1242,6 +1242,7 @@ class Concatenate(CanBehaveLikeAVariable[T]):
             yield sources
             return
         all_values = defaultdict(list)
+        all_values[self._id_] = []
         for child_v in self._child_._evaluate__(sources):
             child_v = copy(child_v)
             for id_, val in child_v.items():
